@@ -69,13 +69,3 @@ Definition plegal (l : list pstate) : bool :=
   | _ => false
   end.
 
-(* the serial task reports the TCP-shaped life-cycle through this projection
-   (no Connecting notification; one Wait state; Open for Connected) *)
-Definition to_port (l : cstate) : list pstate :=
-  match l with
-  | LDisabled => [SDisabled]
-  | LConnecting => []
-  | LConnected => [SOpen]
-  | LWaitFailed d | LWaitDisc d => [SWait d]
-  | LShutdown => [SShutdown]
-  end.
